@@ -227,12 +227,17 @@ impl Property for C02 {
         let nstarts = rng.small(1, 4);
         let mut starts = vec![];
         for _ in 0..nstarts {
-            let s = match rng.weighted(&[50, 20, if top_links.is_empty() { 0 } else { 15 }, 8, 7]) {
+            let s = match rng.weighted(&[50, 20, if top_links.is_empty() { 0 } else { 15 }, 8, 7, 2]) {
                 0 => rng.pick(&roots).clone(),
                 1 => rng.pick(&all).clone(),
                 2 => rng.pick(&top_links).clone(),
                 3 => "missing".to_string(),
-                _ => starts.last().cloned().unwrap_or_else(|| roots[0].clone()),
+                // the empty string: it names nothing, and nothing (not `.`) is walked for it
+                5 => {
+                    starts.push(String::new());
+                    continue;
+                }
+                _ => starts.last().filter(|l| !l.is_empty()).cloned().unwrap_or_else(|| roots[0].clone()),
             };
             // spelling variants
             let s = if s.starts_with('-') || s.contains("/-") && false {
@@ -340,7 +345,8 @@ impl Property for C02 {
         if deep_chain {
             find.ambient.nofile_headroom = Some(rng.urange(16, 22) as u32);
         }
-        if rng.chance(1, 10) {
+        if rng.chance(1, 10) && !starts.iter().any(|s| s.is_empty()) {
+            // (a zero-length name in the list is the business of `files0_empty_after`)
             find.starts_via_file = true;
             find.files0_no_final_nul = rng.chance(1, 3);
             if rng.chance(1, 3) {
@@ -448,6 +454,9 @@ impl Property for C02 {
         }
         if sc.starts.iter().any(|s| s.trim_start_matches("./") == "missing") {
             rep.probe("missing_starting_point");
+        }
+        if sc.starts.iter().any(|s| s.is_empty()) {
+            rep.probe("empty_string_as_starting_point");
         }
 
         if let RunStatus::Panic(msg) = &obs.status {
